@@ -1228,13 +1228,18 @@ fn gen_many_sessions(run: &mut Run, thorough: bool) {
     let mut sc = Sc::new();
     sc.ex.comment("many sessions with the default resolver's own randomness (implementation only)");
     let n = if thorough { 80 } else { 40 };
+    for res in ["new", "fb(ring,default)"] {
+    if res != "new" && !FULL {
+        continue;
+    }
     let r0 = std::panic::catch_unwind(std::panic::AssertUnwindSafe(|| {
         let mut firsts: Vec<Vec<u8>> = vec![];
         let mut sessions = vec![];
         for _ in 0..n {
             let params: snow::params::NoiseParams = "Noise_NN_25519_ChaChaPoly_SHA256".parse().unwrap();
-            let mut i = snow::Builder::new(params.clone()).build_initiator().unwrap();
-            let mut rr = snow::Builder::new(params).build_responder().unwrap();
+            let mkb = |p: snow::params::NoiseParams| if res == "new" { snow::Builder::new(p) } else { snow::Builder::with_resolver(p, toy::resolver_from_expr(res).unwrap()) };
+            let mut i = mkb(params.clone()).build_initiator().unwrap();
+            let mut rr = mkb(params).build_responder().unwrap();
             let (mut a, mut b) = ([0u8; 200], [0u8; 200]);
             let l = i.write_message(&[], &mut a).unwrap();
             firsts.push(a[..32].to_vec());
@@ -1266,10 +1271,11 @@ fn gen_many_sessions(run: &mut Run, thorough: bool) {
     match r0 {
         Ok(ps) => {
             for (p, w) in ps {
-                sc.viol(p, w);
+                sc.viol(p, format!("{w} [resolver {res}]"));
             }
         },
-        Err(_) => sc.viol("C10", "panic while running many default-resolver sessions".into()),
+        Err(_) => sc.viol("C10", format!("panic while running many sessions (resolver {res})")),
+    }
     }
     *sc.stats.entry("many_sessions".into()).or_insert(0) += n as u64;
     run.add("manysessions", "many default-resolver sessions on one thread".into(), sc);
